@@ -253,7 +253,7 @@ func c05Scenario(a *Alpha, ns NamedSkel, focus []string, elems int) mc.Scenario 
 func init() {
 	Register(&Prop{
 		ID:    "C05",
-		Rule:  "one execution = one core case containing ≥1 catching primitive, run twice on the real code (as is; every Catch removed) plus the node-local reference model; string nodes carry the built-in tests Max(5) and the negated Not().Contains(\"2\"); the built-in test t1 of every node is declared with IssuePath(alias@node); enumeration as C02 (≤k focus units over full alphabets incl. catcher inputs {ok, missing+required, uncoercible, fails t1, fails both}, all visit orders, both modes); every counted case is non-trivial; distinct = distinct (skeleton, mode, issues with catch, issues without catch)",
+		Rule:  "one execution = one core case containing ≥1 catching primitive, run twice on the real code (as is; every Catch removed) plus the node-local reference model; string nodes carry the built-in tests Max(5) and the negated Not().Contains(\"2\"); the built-in test t1 of every node is declared with IssuePath(alias@node); the custom test of Int nodes is a free-form test function that reports two issues when it fails; enumeration as C02 (≤k focus units over full alphabets incl. catcher inputs {ok, missing+required, uncoercible, fails t1, fails both}, all visit orders, both modes); every counted case is non-trivial; distinct = distinct (skeleton, mode, issues with catch, issues without catch)",
 		Floor: 50,
 		Bound: func(tier string) string {
 			k, e := coreK(tier)
@@ -264,7 +264,7 @@ func init() {
 			"PostTransforms are not part of this space",
 		},
 		Items: func(tier string) []Item {
-			return coreItems(tier, c05Scenario, func(a *Alpha) { a.NegStr = true; a.PathT1 = true }, []int{0, 1}, 0)
+			return coreItems(tier, c05Scenario, func(a *Alpha) { a.NegStr = true; a.PathT1 = true; a.DoubleT2 = true }, []int{0, 1}, 0)
 		},
 	})
 }
